@@ -8,6 +8,7 @@ LEAN_TARGETS = ['Props.C11']
 OBLIGATIONS = [
     'C11.adjoint_dot', 'C11.compose', 'C11.from_function_on_blades', 'C11.from_function_linear', 'C11.apply_add', 'C11.apply_smul',
     'C11.from_rotor_linear', 'C11.outer_wedge', 'C11.outer_one', 'C11.outer_vector', 'C11.outer_add', 'C11.outer_smul', 'C11.outer_grade', 'C11.outer_compose', 'C11.outer_pseudoscalar', 'C11.executable_outermorphism_is_omap',
+               'C11.outermorphism_on_vectors', 'C11.outermorphism_is_exterior_functor',
 ]
 PENDING = []
 PARTIAL = []
